@@ -16,7 +16,13 @@ def gen_geom(rng, tier):
     kind = rng.pick(['diff', 'diff', 'disa', 'disa2'])
     nparts = 2 if kind == 'disa2' else 1
     parts = []
+    wide = rng.chance(0.03)       # more than 32 level-2 bitmap blocks: a second level-1 word
     for _ in range(nparts):
+        if wide:
+            parts.append({'size': 256 * rng.randint(62, 70) - rng.randrange(200), 'ivfc_log2': [5, rng.pick([5, 6]), rng.pick([5, 6, 7]), 8],
+                          'dpfs_log2': [None, 2, 4], 'external': 0, 'selector': rng.getrandbits(1),
+                          'uninit': sorted(set(rng.randrange(60) for _ in range(rng.pick([0, 0, 1]))))})
+            continue
         l4 = rng.pick([4, 5, 6, 6, 7, 8])
         b4 = 1 << l4
         nb = rng.pick([1, 2, 3, 5, 8, 9, 17, rng.randint(1, 24)])
